@@ -645,7 +645,14 @@ func (o *operation) handle() {
 		o.request.Body = tw
 		if reqMsg.stage != stageEmpty {
 			if err := tw.prepareMessage(); err != nil {
+				// The leading message, already decoded to build the request
+				// line, cannot be sent on (its re-encoded form is too large,
+				// for example). That ends the RPC here: a handler that did not
+				// read its request body, or ignored the read error, would
+				// otherwise turn it into a success.
 				tw.err = err
+				rw.reportError(err)
+				return
 			}
 		}
 	}
